@@ -5,12 +5,15 @@ import (
 	"verif/checks/c01"
 	"verif/checks/c02"
 	"verif/checks/c03"
+	"verif/checks/c04"
+	"verif/checks/c05"
 	"verif/checks/c07"
 	"verif/checks/c08"
 	"verif/checks/c09"
 	"verif/checks/c10"
 	"verif/checks/c12"
 	"verif/checks/c13"
+	"verif/checks/c14"
 	"verif/checks/c16"
 	"verif/checks/c18"
 	"verif/checks/c20"
@@ -20,6 +23,9 @@ import (
 func main() {
 	ev.Main(map[string]*ev.Check{
 		"C01": c01.Check,
+		"C04": c04.Check,
+		"C05": c05.Check,
+		"C14": c14.Check,
 		"C02": c02.Check,
 		"C03": c03.Check,
 		"C07": c07.Check,
